@@ -1,9 +1,87 @@
+"""C02 — restructuring accepts every closed control-flow graph.
+
+(1) the real pipeline is run on every closed CFG of the exhaustive scope and on seeded larger
+    ones under a per-stage timer; any exception or time-out is a violation with the graph as
+    replay (shared runs with C01, see _hier.py);
+(2) correspondence: the Lean model of the whole pipeline (Scfg/Model/Pipeline.lean:
+    join_returns, loop restructuring, region extraction, branch restructuring, abort sites
+    included) is compared with the real result after every stage — names, dict order of every
+    container, value tables, assignments, name-generator counters — exactly.
+"""
+import multiprocessing as mp
+from collections import Counter
+from harness import common, export, gen, edits, hier
 from harness.props import _hier
+
 LEVEL = _hier.LEVEL
+STAGES = (("join_returns", "join_returns"), ("restructure_loop", "restructure_loop"), ("restructure_branch", "restructure_branch"))
+
+
+def _work(chunk):
+    drv = common.Driver()
+    lines, exp = [], []
+    for succ in chunk:
+        scfg = export.mk_scfg(succ)
+        top, line = export.export(scfg)
+        lines.append(f"S {line} {edits.ng_line(scfg)}")
+        exp.append(None)
+        for stage, meth in STAGES:
+            try:
+                getattr(scfg, meth)()
+                ab = None
+            except Exception as e:  # noqa: BLE001
+                ab = hier.abort_site(e)
+            lines.append(f"OP {stage} {top}")
+            if ab:
+                exp.append((succ, stage, None, None, ab))
+                break
+            _, after = export.export(scfg)
+            exp.append((succ, stage, after, edits.ng_line(scfg), None))
+    rep = drv.run(lines)
+    mism = []
+    n = 0
+    for e, r in zip(exp, rep):
+        if e is None:
+            continue
+        n += 1
+        succ, stage, after, ng, ab = e
+        if ab:
+            if not r.startswith("abort " + ab.split("@")[0]):
+                mism.append((succ, stage, f"impl aborted {ab}, model {r[:60]}"))
+        elif not r.startswith("ok "):
+            mism.append((succ, stage, f"impl completed, model {r[:80]}"))
+        else:
+            parts = r.split(" ")
+            if edits.canon(parts[1]) != edits.canon(after):
+                mism.append((succ, stage, "hierarchies differ"))
+            elif edits.canon_ng(parts[2]) != edits.canon_ng(ng):
+                mism.append((succ, stage, "name generators differ"))
+    return n, mism
 
 
 def run(ctx):
-    return _hier.run(ctx, "C02")
+    res = _hier.run(ctx, "C02")
+    inputs = [s for _, s in gen.graph_inputs(ctx["tier"], ctx["seed"])]
+    nproc = common.ncpu()
+    size = max(50, min(2000, len(inputs) // (nproc * 4) + 1))
+    chunks = [inputs[i:i + size] for i in range(0, len(inputs), size)]
+    with mp.get_context("fork").Pool(nproc) as pool:
+        parts = pool.map(_work, chunks)
+    n = sum(p[0] for p in parts)
+    mism = [m for p in parts for m in p[1]]
+    res["coverage"]["pipeline_model_stage_comparisons"] = n
+    res["coverage"]["pipeline_model_mismatches"] = len(mism)
+    res["coverage"]["traces_validated_against_impl"] = n - len(mism)
+    res["coverage"]["rule"] += "; every stage result also compared dump-for-dump with the Lean model of the pipeline"
+    if mism and not res["violations"]:
+        succ, stage, why = min(mism, key=lambda m: (len(m[0]), m[0]))
+        path = common.write_replay("C02", {"property": "C02", "kind": "correspondence-broken",
+                                           "correspondence": "Scfg.Model.Pipeline vs numba_scfg.core.transformations",
+                                           "input_succ": [list(s) for s in succ], "stage": stage, "why": why,
+                                           "mismatches": len(mism), "by_stage": dict(Counter(m[1] for m in mism))})
+        res["broken"] = [{"signature": {"kind": "correspondence"}, "replay": path, "nfi": True,
+                          "what": f"pipeline model mismatch at {stage}: {why}"}]
+    return res
 
 
 def replay(path):
